@@ -64,11 +64,14 @@ def LGraph.n {α} (g : LGraph α) : Nat := g.pts.length
 def coveredB (n : Nat) (labels : List (String × List Bool)) : Bool :=
   (orMasks n (labels.map Prod.snd)).all id
 
-/-- `LabelledPointUndirectedGraph.__init__`: empty label set and uncovered points raise `ValueError`
-(mask-length and OrderedDict checks cannot fail for the callers modelled here) -/
+/-- `LabelledPointUndirectedGraph.__init__`, check by check: an empty label set, a mask whose length is not the
+number of points (`np.vstack(...).shape[1] != points.shape[0]`, or `vstack` itself on ragged masks) and uncovered
+points (`_verify_all_labels_masked`) each raise `ValueError`.  (The `OrderedDict` type check has no counterpart: the
+model's label list *is* ordered.) -/
 def construct {α} (pts : List α) (edges : List (Nat × Nat)) (labels : List (String × List Bool)) :
     Except Err (LGraph α) :=
   if labels.isEmpty then .error .value
+  else if labels.any (fun p => p.2.length != pts.length) then .error .value
   else if !coveredB pts.length labels then .error .value
   else .ok { pts := pts, edges := edges, labels := labels }
 
@@ -90,15 +93,32 @@ def selMask {α} (g : LGraph α) (req : List String) : List Bool :=
 def restrictLabels {α} (g : LGraph α) (req : List String) (ov : List Bool) : List (String × List Bool) :=
   (dedup req).map fun l => (l, maskFilter ((lookup g.labels l).getD []) ov)
 
-/-- `_new_group_with_only_labels(labels)`.
-unknown label → ValueError; nothing selected → the graph constructor refuses zero vertices
-(`empty`: the exception type differs by path, only "raises" is modelled). -/
+/-- `_new_group_with_only_labels(labels)`, branch for branch:
+* `set(labels).difference(self.labels)` non-empty → `ValueError` (`value`);
+* an empty request: `np.sum([], axis=0) > 0` is a 0-d array, `from_mask` reads `mask.shape[0]` → `IndexError`
+  (`index`) — this is the refusal `without_labels` of *all* labels meets;
+* no point under the requested labels → `from_mask` builds a graph with zero vertices, which the graph
+  constructor refuses with `ValueError` ("at least one vertex") — kept apart as `empty`;
+* otherwise `from_mask` (with its all-true shortcut) and the labelled-graph constructor (whose checks are
+  proved never to fire here, `restrict_covered`). -/
 def select {α} (g : LGraph α) (req : List String) : Except Err (LGraph α) :=
   if req.any (fun l => (lookup g.labels l).isNone) then .error .value else
+  if req.isEmpty then .error .index else
   let ov := selMask g req
   if !ov.any id then .error .empty else
   let (pts, es) := fromMask g.pts g.edges ov
   construct pts es (restrictLabels g req ov)
+
+/-- the `labels` argument of `with_labels` / `without_labels`: a single `str` or a list of labels -/
+inductive LabelsArg
+  | str (s : String)
+  | list (ls : List String)
+  deriving DecidableEq, Repr
+
+/-- `if isinstance(labels, str): labels = [labels]` -/
+def LabelsArg.norm : LabelsArg → List String
+  | .str s => [s]
+  | .list ls => ls
 
 def withLabels {α} (g : LGraph α) (req : List String) : Except Err (LGraph α) := select g req
 
@@ -112,6 +132,13 @@ which only `(order l).Perm l` is known. -/
 def withoutLabelsCoded {α} (order : List String → List String) (g : LGraph α) (excl : List String) :
     Except Err (LGraph α) :=
   select g (order (g.names.filter fun l => !excl.contains l))
+
+/-- `with_labels(labels)` with the documented `str`-or-list argument -/
+def withLabelsA {α} (g : LGraph α) (a : LabelsArg) : Except Err (LGraph α) := withLabels g a.norm
+
+/-- `without_labels(labels)` with the documented `str`-or-list argument: the normalisation happens *before*
+the membership test `l not in labels` (on a bare `str` that test would be a substring test) -/
+def withoutLabelsA {α} (g : LGraph α) (a : LabelsArg) : Except Err (LGraph α) := withoutLabels g a.norm
 
 /-- `get_label`: `PointUndirectedGraph.from_mask(self, mask)` (points, edges) -/
 def getLabel {α} (g : LGraph α) (l : String) : Except Err (List α × List (Nat × Nat)) :=
@@ -158,6 +185,26 @@ def removeLabel {α} (g : LGraph α) (l : String) : Except Err (LGraph α) :=
   | some _ =>
     let ls := g.labels.filter fun p => p.1 != l
     if coveredB g.pts.length ls then .ok { g with labels := ls } else .error .value
+
+/-- `init_with_all_label`: the single label `"all"` masking every point -/
+def initWithAllLabel {α} (pts : List α) (edges : List (Nat × Nat)) : Except Err (LGraph α) :=
+  construct pts edges [("all", List.replicate pts.length true)]
+
+/-- `indices_to_masks` + constructor (`init_from_indices_mapping`, what the labellers call): each label's index
+list becomes a mask by numpy integer indexing (negative indices allowed, out of range → `IndexError`) -/
+def masksOfIndices (n : Nat) : List (String × List Int) → Except Err (List (String × List Bool))
+  | [] => .ok []
+  | (l, idx) :: rest => match normAll n idx with
+    | none => .error .index
+    | some js => match masksOfIndices n rest with
+      | .error e => .error e
+      | .ok ms => .ok ((l, indexMask n js) :: ms)
+
+def initFromIndices {α} (pts : List α) (edges : List (Nat × Nat)) (mapping : List (String × List Int)) :
+    Except Err (LGraph α) :=
+  match masksOfIndices pts.length mapping with
+  | .error e => .error e
+  | .ok ms => construct pts edges ms
 
 /-! ### operation sequences -/
 
